@@ -563,6 +563,12 @@ class SymEval:
             return _hasattr
         if n.id == 'bool':
             return lambda x: self.truth(x, n, p)
+        if n.id == 'all':
+            return lambda x: _all(list(x))
+        if n.id == 'any':
+            return lambda x: _any(list(x))
+        if n.id in ('dict', 'set'):
+            return {'dict': dict, 'set': set}[n.id]
         if n.id == 'sorted':
             def _sorted(x):
                 x = list(x)
@@ -803,7 +809,11 @@ class SymEval:
                 return {'dot': lambda b: np.dot(base, b), 'sum': lambda axis=None: np.sum(base, axis=axis), 'copy': lambda: base.copy(),
                         'transpose': lambda *a: base.transpose(*a), 'conjugate': lambda: vmap(sp.conjugate, base), 'conj': lambda: vmap(sp.conjugate, base),
                         'reshape': lambda *a: base.reshape(*a), 'tolist': lambda: base.tolist(), 'all': lambda **k: _all(base), 'any': lambda **k: _any(base),
-                        'flatten': lambda: base.flatten(), 'astype': lambda *a, **k: base, 'prod': lambda: sp.Mul(*base.flat)}[attr]
+                        'flatten': lambda *a, **k: base.flatten(*a, **k), 'astype': lambda *a, **k: base, 'prod': lambda: sp.Mul(*base.flat)}[attr]
+            if attr == 'ravel':
+                return lambda *a, **k: base.ravel(*a, **k)
+            if attr == 'swapaxes':
+                return lambda a, b: base.swapaxes(a, b)
         if isinstance(base, sp.Basic):
             if attr == 'real':
                 return sp.re(base)
@@ -832,6 +842,9 @@ class SymEval:
                 return base.update
             if attr == 'clear':
                 return base.clear
+            if type(base).__name__ == 'DataModelDict' and attr in ('find', 'finds', 'aslist', 'iteraslist', 'append', 'paths', 'path'):
+                m = getattr(base, attr)
+                return (lambda *a, **k: list(m(*a, **k))) if attr == 'iteraslist' else m
             if attr == 'setdefault':
                 return base.setdefault
         if isinstance(base, list) and attr in ('append', 'index', 'pop', 'insert', 'extend', 'count', 'copy'):
